@@ -2,7 +2,7 @@
    structural histories (through Corr/Structc.v). *)
 From Coq Require Import List NArith ZArith Bool.
 From Viv Require Import Base.Assoc Base.Tree Model.Paths Model.Steps Model.Struct Model.StructC Model.Dividers
-     Corr.Structc.
+     Model.DivTree Corr.Structc.
 Import ListNotations.
 Open Scope Z_scope.
 
@@ -12,7 +12,8 @@ Inductive dcase :=
 | DSplitFn (z : Z) (first_gets_rem : bool) (a b : Z)
 | DSplitDictFn (d : list (key * Z)) (d1 d2 : list (key * Z))
 | DBinomFn (n c a b : Z)
-| DHist (h : hcase).
+| DHist (h : hcase)
+| DBTree (n : dnode) (gens : list (bool * list bool)) (obs : list (tree Z * tree Z)).
 
 Definition check_case (c : dcase) : bool :=
   match c with
@@ -20,6 +21,8 @@ Definition check_case (c : dcase) : bool :=
   | DSplitDictFn d d1 d2 => let '(x, y) := divide_split_dict d in leqb kz_eqb x d1 && leqb kz_eqb y d2
   | DBinomFn n c a b => let '(x, y) := divide_binomial n c in Z.eqb x a && Z.eqb y b
   | DHist h => Structc.check_case h
+  | DBTree n gens obs =>
+    leqb (fun x y => tree_equ Z.eqb (fst x) (fst y) && tree_equ Z.eqb (snd x) (snd y)) (divide_gens true n gens) obs
   end.
 
 Definition model_out (c : dcase) :=
@@ -28,4 +31,5 @@ Definition model_out (c : dcase) :=
   | DSplitDictFn d _ _ => (None, Some (divide_split_dict d))
   | DBinomFn n c _ _ => (Some (divide_binomial n c), None)
   | DHist _ => (None, None)
+  | DBTree _ _ _ => (None, None)
   end.
